@@ -11,6 +11,7 @@ class Check(PropCheck):
     rule = ('n = 1..40 (quick) / 1..300 (thorough) x 3 shapes x 3 distributions x both length flags x seeds (seedable RNG hook); the '
             'random choices (which node is split at each step, the drawn lengths) are read back from the result and the model is re-run '
             'on them: it must accept them as an outcome of the real code and produce the identical arena, names included; '
+            'plus aggregate runs (implementation only): minimum / maximum of > 4 million drawn lengths against the support; '
             'non-trivial: n >= 3; distinct by op-list hash')
 
     def gen_cases(self):
@@ -29,7 +30,20 @@ class Check(PropCheck):
                             seed = rng.randint(0, 2 ** 40)
                             ops = ['gen %s %d %d %s %d' % (shape, n, brl, distr, seed), 'dump', 'n_leaves', 'is_binary', 'is_rooted', 'unique_tips', 'colless', 'size']
                             cases.append(Case('g%d' % k, ops, {'n': n, 'shape': shape, 'distr': distr, 'brl': brl})); k += 1
+        # support of the drawn lengths on millions of draws (implementation only: aggregate minimum / maximum / counts)
+        big = 1 if self.tier == 'quick' else 6
+        for shape in ('yule', 'caterpillar', 'ete3'):
+            for distr in ('uniform', 'exponential', 'gamma'):
+                n = 1500 if shape != 'caterpillar' else 400
+                reps = (350 if distr == 'uniform' else 60) * big
+                seed = rng.randint(0, 2 ** 40)
+                cases.append(Case('agg%d' % k, ['gen_stats %s %d 1 %s %d %d' % (shape, n, distr, seed, reps)],
+                                  {'n': n, 'shape': shape, 'distr': distr, 'brl': 1, 'impl_only': True, 'reps': reps})); k += 1
         return cases
+
+    lengths_sampled = 0
+    def extra_coverage(self):
+        return {'lengths_checked_against_support_in_aggregate_runs': self.lengths_sampled}
 
     def nontrivial(self, case, il):
         return case.meta['n'] >= 3
@@ -42,6 +56,22 @@ class Check(PropCheck):
         if il and il[0][0] in ('panic', 'crash', 'hang'):
             return [(0, 'generator ' + il[0][0])]
         if n < 2:
+            return []
+        if case.cid.startswith('agg'):
+            l = il[0]
+            if l[0] != 'ok':
+                return [(0, 'generator refused n = %d' % n)]
+            cnt, missing, badshape, nonfinite = (int(x) for x in l[1:5])
+            mn, mx = vf.bits_f64(int(l[5][1:], 16)), vf.bits_f64(int(l[6][1:], 16))
+            self.lengths_sampled += cnt
+            if badshape:
+                return [(0, '%d generated trees do not have n leaves and 2n-1 nodes' % badshape)]
+            if missing or cnt != case.meta['reps'] * (2 * n - 2):
+                return [(0, 'a branch length is missing although lengths were requested')]
+            lo_ok = (mn >= 0.002) if distr == 'uniform' else (mn >= 0.0 if distr == 'exponential' else mn > 0.0)
+            hi_ok = (mx < 1.0) if distr == 'uniform' else True
+            if nonfinite or not lo_ok or not hi_ok:
+                return [(0, 'lengths in [%r, %r] (%d non-finite) outside the support of %s' % (mn, mx, nonfinite, distr))]
             return []
         if il[0][0] != 'ok':
             return [(0, 'generator refused n = %d' % n)]
